@@ -45,7 +45,7 @@ def index_removal_sites(ctx):
                         yield f, c, ("rev" in chain or "rfold" in chain)
 
 
-def index_removal_rule(R, ctx, rid, floor=3):
+def index_removal_rule(R, ctx, rid, floor=2):
     R.rule(rid, "every loop (or iterator closure) that removes elements of a container by an index taken from a collected list of indexes walks "
                 "that list in reverse: removing in ascending order shifts the later indexes and the wrong elements are removed (sibling rule, "
                 "all sites of the library)")
